@@ -260,6 +260,29 @@ pub fn prec_stream() -> Vec<TextCase> {
             t.push(form.replace("{w}", w));
         }
     }
+    // the neighbourhood of the keywords: every word that can be assembled from their parts (prefixes to_ / is_, stems,
+    // suffixes case / _time …).  Only the exact reserved spellings are keywords; everything else is an identifier — a
+    // token table that merges spellings (regex alternatives, optional affixes) claims some of these
+    {
+        let stems = [
+            "and", "or", "if", "then", "else", "some", "none", "int", "float", "dec", "true", "false", "contains", "in", "starts", "ends", "date", "time",
+            "datetime", "date_time", "duration", "upper", "lower", "uppercase", "lowercase", "case", "trim", "round", "floor", "fract", "year", "month",
+            "week", "day", "hour", "minute", "second", "key", "val", "any", "all", "not", "is", "to", "decimal", "integer", "string", "bool", "ceil", "abs", "min", "max", "len",
+        ];
+        let mut words: std::collections::BTreeSet<String> = Default::default();
+        for pre in ["", "to_", "is_", "to", "is", "not_", "_"] {
+            for st in stems {
+                for suf in ["", "case", "_case", "time", "_time", "s", "_", "d", "ing", "_of", "0"] {
+                    words.insert(format!("{}{}{}", pre, st, suf));
+                }
+            }
+        }
+        for w in words {
+            for form in ["{w}", "{w}(a)", "a.{w}", ":{w}", "{{{w}: a}}", "{w} <= a"] {
+                t.push(form.replace("{w}", &w));
+            }
+        }
+    }
     for (x, y) in [("=", "=="), ("is_some", "some"), ("is_none", "none"), ("date_time", "datetime"), ("to_upper", "uppercase"), ("to_lower", "lowercase")] {
         if x == "=" {
             t.push("a = b".into());
@@ -816,6 +839,42 @@ pub fn prefixed_stream() -> Vec<TextCase> {
     out
 }
 
+/// ill-formed texts that carry a long run of 2- / 3- / 4-byte characters, at every alignment, sized so that the run
+/// crosses each power-of-two byte offset up to 16 KiB (64 KiB thorough) of the text and of whatever message quotes it:
+/// a parser that abridges, excerpts or pads what it reports must cut on character boundaries at every size
+pub fn long_reject_stream(thorough: bool, rule: bool) -> Vec<TextCase> {
+    let mut out = vec![];
+    let sizes: Vec<usize> = if thorough { vec![60, 124, 252, 508, 1020, 2044, 4092, 8188, 16380, 32764, 65532] } else { vec![60, 124, 252, 508, 1020, 2044, 4092, 16380] };
+    for unit in ["\u{e9}", "\u{65e5}", "\u{1f600}", "a\u{e9}\u{65e5}\u{1f600}"] {
+        for l in &sizes {
+            for off in 0..4usize {
+                let n = l / unit.len() + 2;
+                let run = format!("{}{}", "a".repeat(off), unit.repeat(n));
+                let mut forms = vec![
+                    format!("x \"{}\"", run),
+                    format!("\"{}", run),
+                    format!("x {}", run),
+                    format!("\"{}\\q\"", run),
+                    format!("\"\\q{}\"", run),
+                    format!("{})", run),
+                    format!("[i1, \"{}\" \"{}\"]", run, run),
+                    format!("x // {}\n)", run),
+                ];
+                if rule {
+                    forms = forms.into_iter().map(|f| format!("// n\n{}", f)).collect();
+                    forms.push(format!("// {}\n)", run));
+                    forms.push(format!("// n\n@k: \"{}\" x;\ni1", run));
+                    forms.push(format!("// n\n@{}: i1;\ni1 )", run));
+                }
+                for f in forms {
+                    out.push(TextCase { text: f, tag: "long-reject" });
+                }
+            }
+        }
+    }
+    out
+}
+
 pub fn run_c06(rep: &mut Report, driver: &str, workers: usize, thorough: bool, seed: u64) {
     let mut rng = Rng::new(seed);
     let mut texts = chars_stream(thorough);
@@ -826,14 +885,16 @@ pub fn run_c06(rep: &mut Report, driver: &str, workers: usize, thorough: bool, s
     texts.extend(literal_stream(&mut rng, false));
     texts.extend(prec_stream());
     texts.extend(prefixed_stream());
-    let rule_texts: Vec<TextCase> = texts.iter().filter(|t| t.tag != "toks30" && t.tag != "toks9").step_by(3).map(|t| TextCase { text: format!("//n\n@k: {}; {}", t.text, t.text), tag: "as-rule" }).collect();
+    texts.extend(long_reject_stream(thorough, false));
+    let rule_texts: Vec<TextCase> = texts.iter().filter(|t| t.tag != "toks30" && t.tag != "toks9" && t.tag != "long-reject").step_by(3).map(|t| TextCase { text: format!("//n\n@k: {}; {}", t.text, t.text), tag: "as-rule" }).collect();
     let run = run_texts(texts, false, driver, workers);
-    judge_texts("C06", "expr-texts", "every string of length <= 3 (thorough 4) over the 24-character literal alphabet `ifd0189xboe.+-\"\\/nu{}_a ` and of length <= 2 (3) over 37 punctuation / whitespace / non-ASCII characters; every sequence of <= 3 (4) of 30 token representatives, <= 4 (5) of 17 and <= 5 (6) of the 9 compound-literal token classes; string literals mixing 1- to 4-byte characters with 16 valid / invalid escape forms at every distance 0..14 from either end; character-level mutations (delete / duplicate / insert junk / swap) of grammar-generated texts; out-of-range numerals in every numeric position, every escape form, control and non-ASCII characters; the precedence texts; texts that begin with 2- / 3- / 4-byte characters followed by an early syntax error — through Expr::parse under catch_unwind", false, &run, "panic", rep);
+    judge_texts("C06", "expr-texts", "every string of length <= 3 (thorough 4) over the 24-character literal alphabet `ifd0189xboe.+-\"\\/nu{}_a ` and of length <= 2 (3) over 37 punctuation / whitespace / non-ASCII characters; every sequence of <= 3 (4) of 30 token representatives, <= 4 (5) of 17 and <= 5 (6) of the 9 compound-literal token classes; string literals mixing 1- to 4-byte characters with 16 valid / invalid escape forms at every distance 0..14 from either end; character-level mutations (delete / duplicate / insert junk / swap) of grammar-generated texts; out-of-range numerals in every numeric position, every escape form, control and non-ASCII characters; the precedence texts; texts that begin with 2- / 3- / 4-byte characters followed by an early syntax error; ill-formed texts carrying a run of 2- / 3- / 4-byte characters that crosses every power-of-two byte offset up to 16 KiB (64 KiB thorough) at every alignment — through Expr::parse under catch_unwind", false, &run, "panic", rep);
     let mut more = rule_stream(&mut rng, false);
     more.extend(rule_texts);
     more.extend(prefixed_stream());
+    more.extend(long_reject_stream(thorough, true));
     let run2 = run_texts(more, true, driver, workers);
-    judge_texts("C06", "rule-texts", "generated rule texts, every third expression text embedded as metadata value and expression, and texts that begin with 2- / 3- / 4-byte characters (U+FEFF among them) followed by a syntax error at each of the first offsets — through Rule::parse under catch_unwind", false, &run2, "panic", rep);
+    judge_texts("C06", "rule-texts", "generated rule texts, every third expression text embedded as metadata value and expression, and texts that begin with 2- / 3- / 4-byte characters (U+FEFF among them) followed by a syntax error at each of the first offsets, and the long multi-byte runs in expression, comment and metadata position — through Rule::parse under catch_unwind", false, &run2, "panic", rep);
 }
 
 pub fn run_c07(rep: &mut Report, driver: &str, workers: usize, thorough: bool, seed: u64) {
